@@ -22,8 +22,11 @@ Second deepening round (last part of the file, from `C14_flag_inline` on; helper
 leaves no call that the criteria accept", idempotence, measure (#accepted call nodes, 0 after one round);
 `C14_inline_valid`: on C05's `validF` models that do not make the pass raise all of this holds of `inlineModel`
 (what the driver returns) - `stuck = false` is C05's `C05_inline_total`.  CSE: the weighted node count never grows
-and a stalled rewrite is an elimination (`C14_cse_weight_mono`); the measure in stalled rounds is STILL open (a
-stalled round CAN be followed by further modifying rounds: example `exCse4`).  Ordered stays ordered for the node
+and a stalled rewrite is an elimination (`C14_cse_weight_mono`); a stalled round CAN be followed by further modifying
+rounds (example `exCse4`), but in a round all of whose rewrites are stalled the total Identity-chain depth of the main
+graph grows, so `cseMu` = (weighted node count, then W*W - depth) strictly decreases in EVERY modifying round on a
+`validModel` (`C14_measure_cse`; helper developments `Lemmas/PassFlags13.lean`, `PassFlags14.lean`) and a PassManager
+around CSE stops within `cseMu + 1` rounds in a fixpoint (`C14_rounds_cse`).  Ordered stays ordered for the node
 ADDING passes CSE and OutputFix on `validModel` inputs (`C14_keeps_sorted_add`, corollary of `C05_pass_valid`).
 Use-def / ownership / names: RemoveUnusedNodes and IdentityElimination written as programs over C01's kernel
 (`Model/PassKernel.lean`) keep C01's invariant `WF` and are the replay of the public mutator calls they issue
@@ -44,6 +47,7 @@ import IrVerif.Lemmas.PassFlags9
 import IrVerif.Props.C15
 import IrVerif.Lemmas.PassFlags11
 import IrVerif.Lemmas.PassFlags12
+import IrVerif.Lemmas.PassFlags14
 import IrVerif.Lemmas.PassKernel
 import IrVerif.Props.C05
 import IrVerif.Props.C01
@@ -1971,13 +1975,11 @@ section Cse2
 open IrVerif.Sem IrVerif.Passes IrVerif.PassFlags
 
 /-- **C14_cse_weight_mono**: a stalled rewrite is an elimination (`cseStalled ≤ cseCount`), hence the weighted node
-    count of the main graph NEVER grows, in whatever round; it drops strictly in every round with at least one
-    rewrite that is not stalled (`cseStalled < cseCount`) - so at most `cseW` rounds of a PassManager have such a
-    rewrite.  What is still open is a bound on the number of rounds ALL of whose rewrites are stalled: a stalled
-    round can be followed by further modifying rounds (`exCse4` below: k equal nodes at the outputs need k-1
-    modifying rounds, all but the first of them stalled), so the alternative "a stalled round ends the iteration"
-    is false; a measure that also decreases there would be the total Identity-chain depth of the graph outputs
-    (each stalled rewrite hangs an output one link deeper), which is not formalised. -/
+    count of the main graph NEVER grows, in whatever round (no hypothesis on the model); it drops strictly in every
+    round with at least one rewrite that is not stalled (`cseStalled < cseCount`).  A stalled round can be followed
+    by further modifying rounds (`exCse4` below: k equal nodes at the outputs need k-1 modifying rounds, all but
+    the first of them stalled), so "a stalled round ends the iteration" is false; what decreases there is
+    `C14_measure_cse`. -/
 theorem C14_cse_weight_mono (limit : Nat) (m : Model) :
     cseStalled limit m ≤ cseCount limit m ∧
     cseW (cseModel limit m).graph.nodes ≤ cseW m.graph.nodes ∧
@@ -1987,6 +1989,33 @@ theorem C14_cse_weight_mono (limit : Nat) (m : Model) :
     exact cseStall_le_cnt limit _ _ _ _ _
   have h2 := (C14_measure_cse_weighted_partial limit m).1
   exact ⟨h1, by omega, fun h => by omega⟩
+
+/-- **C14_measure_cse** (supersedes the `_partial` measure theorems: no `cseStalled = 0` hypothesis): on a well-formed
+    model (C05's `validModel`, evaluated by the driver on every case) EVERY round of CSE that reports
+    `modified = True` strictly decreases `cseMu` = `W*(W*W+1) + (W*W - depth)`, where `W` is the weighted node count
+    of the main graph and `depth` the total Identity-chain depth of its one-input one-output Identity nodes
+    (`depth ≤ W*W`).  A round with a rewrite that is not stalled lowers `W`; in a round all of whose rewrites are
+    stalled (`o = Identity(x)` becomes `o = Identity(z)` with `z = Identity(x)` the kept node) `W` stays and `depth`
+    grows by the number of rewrites. -/
+theorem C14_measure_cse (limit : Nat) (m : Model) (hv : validModel m = true) (h : cseFlag limit m = true) :
+    cseMu (cseModel limit m) < cseMu m ∧ cseDepth m ≤ cseW m.graph.nodes * cseW m.graph.nodes ∧
+    (cseCount limit m ≤ cseStalled limit m → cseDepth m + cseCount limit m ≤ cseDepth (cseModel limit m)) := by
+  simp only [cseFlag, bne_iff_ne, ne_eq] at h
+  exact ⟨cseMu_decreases limit m hv h (C14_measure_cse_weighted_partial limit m).1 (C14_cse_weight_mono limit m).1,
+    cseDepth_le m, cseModel_depth limit m hv⟩
+
+/-- **C14_rounds_cse**: hence `PassManager([CommonSubexpressionEliminationPass(limit)], steps, early_stop=True)` on a
+    well-formed model stops within `cseMu + 1` rounds (cubic in the size of the main graph; the pass is not idempotent),
+    whatever `steps` is, and - given more steps than that - in a well-formed model that the pass maps to itself
+    reporting `False`.  The invariant `validModel` is kept by the pass (`C05_pass_valid`). -/
+theorem C14_rounds_cse (limit n : Nat) (s : Model) (m : ModelId) (hv : validModel s = true) :
+    (mgrLoop (fun s m => (cseModel limit s, Except.ok ⟨m, cseFlag limit s⟩)) true n s m false).2.2.length ≤ cseMu s + 1 ∧
+    ∀ s' r fl, cseMu s < n →
+      mgrLoop (fun s m => (cseModel limit s, Except.ok ⟨m, cseFlag limit s⟩)) true n s m false = (s', .ok r, fl) →
+      cseModel limit s' = s' ∧ cseFlag limit s' = false ∧ validModel s' = true :=
+  pure_rounds_inv (cseModel limit) (cseFlag limit) cseMu (fun s => validModel s = true)
+    (fun s hs => C05_pass_valid (.cse limit) s hs) (fun s _ h => C14_flag_cse limit s h)
+    (fun s hs h => (C14_measure_cse limit s hs h).1) n s m false hv
 
 end Cse2
 
@@ -2081,6 +2110,11 @@ example : cseCount 10 (cseModel 10 exCse4) = 2 ∧ cseStalled 10 (cseModel 10 ex
     cseFlag 10 (cseModel 10 (cseModel 10 (cseModel 10 exCse4))) = false := by decide
 example : validModel exCse4 = true ∧ sortedModel (cseModel 10 exCse4) = true := by decide
 example : cseStalled 10 exCse4 < cseCount 10 exCse4 := by decide
+/-- the measure over the rounds: the weight drops in the first one, the depth grows in the stalled ones -/
+example : cseMu (cseModel 10 exCse4) < cseMu exCse4 ∧
+    cseW (cseModel 10 (cseModel 10 exCse4)).graph.nodes = cseW (cseModel 10 exCse4).graph.nodes ∧
+    cseDepth (cseModel 10 exCse4) = 3 ∧ cseDepth (cseModel 10 (cseModel 10 exCse4)) = 5 ∧
+    cseMu (cseModel 10 (cseModel 10 exCse4)) < cseMu (cseModel 10 exCse4) := by decide
 
 end NonVacuity3
 
